@@ -457,7 +457,9 @@ def run_one(ck, prog):
     if ck.anchor("C03.8", "try_realloc_chunk", trc):
         ctx = prog.ctx(trc)
         cfg = ctx.cfg
-        PURE = ("Chunk::size", "Chunk::plus_offset", "Chunk::minus_offset", "Chunk::mmapped", "Chunk::cinuse", "Chunk::pinuse", "Chunk::inuse", "core::ptr::null_mut", "PartialEq", "Chunk::next", "Chunk::prev", "Chunk::from_mem", "Chunk::to_mem", "Dlmalloc::overhead_for")
+        PURE = ("Chunk::size", "Chunk::plus_offset", "Chunk::minus_offset", "Chunk::mmapped", "Chunk::cinuse", "Chunk::pinuse", "Chunk::inuse", "core::ptr::null_mut", "PartialEq", "Chunk::next", "Chunk::prev", "Chunk::from_mem", "Chunk::to_mem", "Dlmalloc::overhead_for",
+                "::checked_sub", "::checked_add", "::wrapping_sub", "::wrapping_add", "::saturating_sub", "Option::<T>::is_some", "Option::<T>::is_none", "Try::branch", "FromResidual::from_residual",
+                "Option::<T>::filter", "cmp::Ord::min", "cmp::Ord::max", "cmp::min", "cmp::max")
         nulls = [bb for bb, t in cfg.calls(lambda t: (t.get("callee") or "").endswith("core::ptr::null_mut") and t["dst"]["l"] == 0)]
         for b in trc["blocks"]:
             if b["id"] in cfg.live_blocks() and any(s["k"] == "assign" and s["dst"]["l"] == 0 and not s["dst"].get("p") and fold(ctx.prov.rvalue(s["rv"], (b["id"], i))) == 0 for i, s in enumerate(b["stmts"])):
